@@ -210,5 +210,5 @@ func runC05(cw *caseWriter, tier string, seed uint64) {
 		c05random(cw, r, 60000)
 		cw.stat("c05_random_cases", 60000)
 	}
-	// runC102(cw, tier, seed, 2) // enabled once the model tracks nextIndex (see ClusterCommit.v)
+	runC102(cw, tier, seed, 2)
 }
